@@ -1,40 +1,16 @@
 (* Entry point of the extracted model runner: one s-expression in, one out.
-   Each op evaluates model, legacy model and spec on the same input so the
-   harness gets all three from one call. *)
-From Tx Require Import Lib.Base Lib.Sexp Model.Validators Spec.Grammar.
+   Input: (<property number> <args...>); each property's ops live in
+   Model/OpsCxx.v and evaluate model, legacy model and spec on the same input
+   so the harness gets all of them from one call. *)
+From Tx Require Import Lib.Base Lib.Sexp.
+From Tx Require Model.OpsC18.
 Local Open Scope Z_scope.
-
-(* a Python str: "hex" when all code points < 256, else a list of numbers *)
-Definition as_str (s : sexp) : option str :=
-  match s with
-  | SBytes b => Some b
-  | SList l => map_opt as_N l
-  | SNum _ => None
-  end.
-
-Definition bad : sexp := SList [SNum (-1)].
-
-Definition op_validate (args : list sexp) : sexp :=
-  match args with
-  | [s] =>
-      match as_str s with
-      | None => bad
-      | Some n =>
-          let t (m l g : bool) := SList [sbool m; sbool l; sbool g] in
-          SList [ t (validate_path n) (validate_path n) (g_path n);
-                  t (validate_iface n) (validate_iface_legacy n) (g_interface n);
-                  t (validate_error n) (validate_iface_legacy n) (g_error n);
-                  t (validate_bus n) (validate_bus_legacy n) (g_bus n);
-                  t (validate_member n) (validate_member n) (g_member n) ]
-      end
-  | _ => bad
-  end.
 
 Definition run_op (s : sexp) : sexp :=
   match s with
   | SList (SNum op :: args) =>
       match op with
-      | 1 => op_validate args
+      | 18 => OpsC18.op args
       | _ => bad
       end
   | _ => bad
